@@ -344,7 +344,7 @@ Print Assumptions C02_sys_projects_to_L.
 Theorem C02_L_realised_by_Conn : forall v o v' e, lvalid v -> lstep v o = Some (v', e) ->
   Conn_Proofs.Inv (wit v (wit_pending o)) /\ cview (wit v (wit_pending o)) = v /\
   exists cm' ev, Conn_Model.step (wit v (wit_pending o)) (wit_op o) = Ok (cm', ev) /\ cview cm' = v' /\ levs ev = e.
-Proof. exact (fun v o v' e Hv Hs => match l_realised v o v' e Hv Hs with conj A B => conj A (conj (cview_wit v _) B) end). Qed.
+Proof. exact l_realised_view. Qed.
 Print Assumptions C02_L_realised_by_Conn.
 
 (* composed: one step, and a whole run from the initial state *)
@@ -361,7 +361,8 @@ Print Assumptions C02_sys_run_projects_to_Conn.
 Theorem C02_proj_def : forall c x, projx c x =
   match x with OUp _ c' => if c' =? c then [LUp] else [] | ODown _ c' => if c' =? c then [LDown] else []
              | OMsg _ c' => if c' =? c then [LMsg] else [] | ODtor _ _ _ => [] end.
-Proof. exact (fun c x => eq_refl). Qed.
+Proof. exact projx_def. Qed.
+Print Assumptions C02_proj_def.
 
 (* H3 is the race-freedom condition of Conn_Race: a foreign setState accepted under the hypotheses satisfies
    Conn_Race.set_ok for the corresponding XSet of Conn_Model's x-layer, and is refused only when set_ok fails *)
